@@ -8,4 +8,5 @@ EXTENDS Position
 MarkSigned   == {-3, 0, 2, 5}     \* market prices of the shared configurations
 MarkNonPos   == {-3, 0, 2}
 PriceNonPos  == {-2, 0, 3}        \* fill prices, C15 only (C02's quantifier says price > 0)
+FeeSigned    == {-1, 1}           \* fill fees: a maker rebate next to a positive fee (0 is in the other configurations)
 =============================================================================
